@@ -48,10 +48,13 @@ CopyIsFresh == [][LastOp.op = "copy" =>
                     /\ \A d \in DOMAIN st.cont \ {LastOp.t} : Content(st', d) = Content(st, d)]_vars
 \* a + w leaves a (and everybody else) untouched
 PlusIsPure == [][LastOp.op = "plus" => \A d \in DOMAIN st.cont \ {LastOp.t} : Content(st', d) = Content(st, d)]_vars
-\* after a.link(b) the fields of a ARE the arrays of b (first common fields), and no content changed
+\* after a.link(b) the fields of a ARE the arrays of b, and no content changed -- provided a and b hold different field objects
+\* (found by TLC at depth 4: with c = a & b and a' = b & a, c.link(a') re-binds pair by pair and a later pair reads an object an
+\* earlier pair has already re-bound, so c does not end up as a pairwise alias of a')
 LinkAliases == [][LastOp.op = "link" =>
                     /\ st'.heap = st.heap
-                    /\ IsInjective(st.cont[LastOp.a]) => \A k \in Slots(st, LastOp.a) : Arr(st', LastOp.a, k) = Arr(st, LastOp.b, k)]_vars
+                    /\ (IsInjective(st.cont[LastOp.a]) /\ ToSet(st.cont[LastOp.a]) \cap ToSet(st.cont[LastOp.b]) = {})
+                          => \A k \in Slots(st, LastOp.a) : Arr(st', LastOp.a, k) = Arr(st, LastOp.b, k)]_vars
 \* a & b holds the operands' field objects, in order
 JoinShares == [][LastOp.op = "join" => st'.cont[LastOp.t] = st.cont[LastOp.a] \o st.cont[LastOp.b] /\ st'.heap = st.heap /\ st'.fobj = st.fobj]_vars
 \* global numbering: on a container without internal sharing, c += w adds w[offset_k + i] to entry i of field k
